@@ -37,6 +37,12 @@ Theorem c03_truncate_contract_partial : forall llog w T h eh,
 Proof. exact trunc_contract_from_log_matching. Qed.
 Print Assumptions c03_truncate_contract_partial.
 
+(* Truncate is refused, and changes nothing, unless the follower is FENCED (both model variants). *)
+Theorem c03_truncate_refused_unless_fenced : forall c n t h, n_role n = RFollower -> n_status n <> Fenced ->
+  step c n (TruncateReq t h) = (n, out (RErr EInvalidStatus)).
+Proof. exact truncate_refused_unless_fenced. Qed.
+Print Assumptions c03_truncate_refused_unless_fenced.
+
 (* Known finding (open): one round of truncation by entry id can leave lower-term entries the leader does not have. *)
 Theorem c03_truncate_one_round_refuted :
   truncate_follower_if_needed leader10 2 (8, 1) (6, 3) = TTrunc (4, 0) /\
